@@ -23,6 +23,10 @@ def run(ctx):
     cfgs = ["MC_AfcShm_c40.cfg"] + (["MC_AfcShm_c40_thorough.cfg"] if ctx.thorough else [])
     (beh, trace), sel = afc_util.shm_check(ctx, vh, "C40", cfgs, ("MC_AfcShm_mut_seq.cfg", "SeqsOk"))
     afc_util.mem_check(ctx, vh, "C40")
+    if ctx.nviol:
+        # self-tests use the recorded results of this run; with violations present they prove nothing
+        ctx.cov["selftests"] = ["skipped: the run found violations"]
+        return
     # binding self-test: a history in which a seal repeats its number must be rejected
     evs = [json.loads(l) for l in open(trace).read().splitlines()]
     k = next((i for i, e in enumerate(evs) if e["ev"] == "ret" and e["what"] == "seal" and e["res"] == "ok" and e["seq"] == 1), None)
